@@ -14,6 +14,8 @@
  *   sni=<hex>|-                 client_sni
  *   ss=<name>:<hint>:<key>,..|- server validate_sni_call_back table (unknown name, incl. the empty one -> NULL); '-' none
  *   q=<[CN]*>                   requests the application sends right after creating the session (token 01.., payload PAYLOADi)
+ *   b=<[CN]*>                   (C08) a BURST of up to 6 further requests the application sends at the first moment the I/O loop
+ *                               finds the client session ESTABLISHED (tokens continue after q's); segments c:send:… like q's
  *   f=<[dx2]*>                  fate of the k-th datagram written (both directions, in order): deliver / drop / duplicate;
  *                               past the end: deliver
  *   inj=<k><c|o|r>,...          before the fate of datagram k is applied (or at quiescence if fewer were written) inject a
@@ -374,8 +376,9 @@ static unsigned w_n, w_clear, w_app, w_pre;
 static const sim_dgram_t *pending[512];
 static int npending;
 static char fate[600];
-static uint8_t q_payload[3][9];
+static uint8_t q_payload[9][9];
 static int nq;
+static char g_burst[8]; static int g_burst_done;      /* b=: requests sent once the client session is ESTABLISHED */
 
 static int looks_dtls(const uint8_t *b, size_t n) {
   size_t i = 0;
@@ -631,6 +634,7 @@ static void flush_net(void) {
   }
 }
 
+static void send_request(char kind);
 /* the I/O loop: deliver what is pending, run both contexts' timers, advance the virtual clock to the next deadline */
 static void run_loop(int idle, int until_srv_gone) {
   coap_tick_t limit = sim_now + 400000;
@@ -640,6 +644,13 @@ static void run_loop(int idle, int until_srv_gone) {
     flush_net();
     if (g_cli) { sim_prng_fill = 0x80; wc = coap_io_prepare_epoll(g_cli, sim_now); seg_close(); }
     sim_prng_fill = 0x40; ws = coap_io_prepare_epoll(g_srv, sim_now); seg_close();
+    if (!in_pre && !g_burst_done && g_burst[0] && g_cs && !g_cs_gone && g_cs->state == COAP_SESSION_STATE_ESTABLISHED) {
+      /* b=: the handshake has completed - the application submits a burst on the ESTABLISHED session */
+      g_burst_done = 1;
+      sim_prng_fill = 0x80;
+      for (int j = 0; g_burst[j]; j++) send_request(g_burst[j]);
+      continue;
+    }
     if (npending) continue;
     if (until_srv_gone && !srv_session(&g_caddr)) break;
     wait = wc && (!ws || wc < ws) ? wc : ws;
@@ -649,6 +660,27 @@ static void run_loop(int idle, int until_srv_gone) {
     if (sim_now > limit) break;
     sim_now += wait;
   }
+}
+
+/* the application sends request number nq+1 (token = its number, payload PAYLOAD<number>) */
+static void send_request(char kind) {
+  int i = nq;
+  uint8_t tok[1] = {(uint8_t)(i + 1)};
+  uint8_t obuf[4];
+  int con = kind == 'C' || kind == 'O', obs = kind == 'O' || kind == 'M';
+  coap_pdu_t *p;
+  coap_mid_t mid;
+  if (i >= 9 || !g_cs || g_cs_gone) return;
+  mid = coap_new_message_id(g_cs);
+  memcpy(q_payload[i], "PAYLOAD0", 9); q_payload[i][7] = (uint8_t)('1' + i);
+  nq = i + 1;
+  p = sim_make_pdu(g_cs, con ? COAP_MESSAGE_CON : COAP_MESSAGE_NON, COAP_REQUEST_CODE_GET, mid, tok, 1, NULL, 0);
+  if (obs) coap_add_option(p, COAP_OPTION_OBSERVE, coap_encode_var_safe(obuf, sizeof(obuf), COAP_OBSERVE_ESTABLISH), obuf);
+  coap_add_option(p, COAP_OPTION_URI_PATH, 1, (const uint8_t *)"r");
+  coap_add_data(p, 8, q_payload[i]);
+  seg_begin(w_cli, "send:%c%d:%02x", kind, (int)(uint16_t)mid, tok[0]);
+  if (coap_send(g_cs, p) == COAP_INVALID_MID) OUT("sendfail");
+  seg_close();
 }
 
 /* a client context with one DTLS client session (c_id / c_key / c_sni as set) and the requests `qs` queued at once */
@@ -685,22 +717,8 @@ static void start_client(const char *qs) {
   }
   seg_close();
   if (!g_cs) return;
-  nq = (int)strlen(qs);
-  for (int i = 0; i < nq; i++) {
-    uint8_t tok[1] = {(uint8_t)(i + 1)};
-    uint8_t obuf[4];
-    int con = qs[i] == 'C' || qs[i] == 'O', obs = qs[i] == 'O' || qs[i] == 'M';
-    coap_pdu_t *p;
-    coap_mid_t mid = coap_new_message_id(g_cs);
-    memcpy(q_payload[i], "PAYLOAD0", 9); q_payload[i][7] = (uint8_t)('1' + i);
-    p = sim_make_pdu(g_cs, con ? COAP_MESSAGE_CON : COAP_MESSAGE_NON, COAP_REQUEST_CODE_GET, mid, tok, 1, NULL, 0);
-    if (obs) coap_add_option(p, COAP_OPTION_OBSERVE, coap_encode_var_safe(obuf, sizeof(obuf), COAP_OBSERVE_ESTABLISH), obuf);
-    coap_add_option(p, COAP_OPTION_URI_PATH, 1, (const uint8_t *)"r");
-    coap_add_data(p, 8, q_payload[i]);
-    seg_begin(w_cli, "send:%c%d:%02x", qs[i], (int)(uint16_t)mid, tok[0]);
-    if (coap_send(g_cs, p) == COAP_INVALID_MID) OUT("sendfail");
-    seg_close();
-  }
+  nq = 0;
+  for (int i = 0; qs[i]; i++) send_request(qs[i]);
 }
 static void free_client(void) {
   seg_begin(w_cli, "free");
@@ -722,7 +740,7 @@ static void step(char *line) {
   /* defaults */
   memcpy(c_id, "id", 3); c_idl = 2; memcpy(c_key, "key", 4); c_keyl = 3; memcpy(s_key, "key", 4); s_keyl = 3;
   have_hint = 0; s_hintl = 0; have_keytab = 0; nkeytab = 0; have_snitab = 0; nsnitab = 0; ih_mode = 0; nih = 0; have_sni = 0;
-  fate[0] = 0; ninj = 0; rel_at = -1; nq = 0; g_bm = 0; g_tt = 1; c_sni[0] = 0;
+  fate[0] = 0; ninj = 0; rel_at = -1; nq = 0; g_bm = 0; g_tt = 1; c_sni[0] = 0; g_burst[0] = 0; g_burst_done = 0;
   for (int i = 1; i < n; i++) {
     char *k = w[i], *v = strchr(w[i], '=');
     int ok = 1;
@@ -747,6 +765,7 @@ static void step(char *line) {
     }
     else if (!strcmp(k, "sni")) { size_t l; have_sni = strcmp(v, "-") != 0; ok = unhex_into(v, (uint8_t *)c_sni, sizeof(c_sni), &l); }
     else if (!strcmp(k, "q")) { if (strlen(v) > 3 || strspn(v, "CNOM") != strlen(v)) ok = 0; else strcpy(qs, v); }
+    else if (!strcmp(k, "b")) { if (strlen(v) > 6 || strspn(v, "CN") != strlen(v)) ok = 0; else strcpy(g_burst, v); }
     else if (!strcmp(k, "f")) { if (strlen(v) >= sizeof(fate) || strspn(v, "dx2") != strlen(v)) ok = 0; else strcpy(fate, v); }
     else if (!strcmp(k, "inj")) {
       if (strcmp(v, "-")) for (char *e = strtok(v, ","); e; e = strtok(NULL, ",")) {
